@@ -156,6 +156,9 @@ func (st *State) exec1(s ast.Stmt) []Outcome {
 					} else {
 						st.vars[obj] = st.zeroVal(obj.Type())
 					}
+					if at, isArr := obj.Type().Underlying().(*types.Array); isArr && st.fc.promote[obj] {
+						st.vars[obj] = st.newPromotedArray(at, st.vars[obj])
+					}
 				}
 			}
 		}
@@ -328,6 +331,11 @@ func (st *State) assignTo(lhs ast.Expr, v Val) {
 				return
 			}
 		}
+		if cur, ok := st.vars[obj]; ok && cur.K == KSlice && cur.Sort == "promoted" {
+			// the binding itself never changes: only the heap row does
+			st.writePromoted(cur, obj.Type().Underlying().(*types.Array), v)
+			return
+		}
 		if st.fc.rec != nil {
 			st.fc.rec.vars[obj] = true
 		}
@@ -343,7 +351,12 @@ func (st *State) assignTo(lhs ast.Expr, v Val) {
 			st.mapStore(m, bt, k, st.coerce(v, bt.Underlying().(*types.Map).Elem()), x.Pos(), exprStr(x.X))
 			return
 		}
-		base := st.eval(x.X)
+		var base Val
+		if pv, ok := st.promotedVar(x.X); ok {
+			base = pv
+		} else {
+			base = st.eval(x.X)
+		}
 		idx := st.eval(x.Index)
 		switch base.K {
 		case KSlice:
